@@ -3349,3 +3349,33 @@ pub mod verif_hooks_c13 {
         });
     }
 }
+
+#[cfg(feature = "verif-hooks")]
+pub mod verif_hooks_httppages {
+    //! Verification hooks (add-only) for the HTTP pages of the manager:
+    //! read access to the manager's tracer, the gate id a component's name
+    //! maps to in the current link report, and `extract_msg_indices` (the
+    //! text `/status/graph/traces/<n>` writes into a component's box).
+    use super::*;
+
+    /// The tracer `/status/graph/traces/<n>` and `/status/traces` render.
+    pub fn tracer(manager: &Manager) -> Arc<Tracer> {
+        manager.tracer.clone()
+    }
+
+    /// Component names of the current link report with their gate ids.
+    pub fn graph_gates(manager: &Manager) -> Vec<(String, Option<Uuid>)> {
+        let data = manager.graph_svg_data.load();
+        let report = &data.1;
+        report
+            .links
+            .keys()
+            .map(|name| (name.clone(), report.get_gate_id(name)))
+            .collect()
+    }
+
+    /// `extract_msg_indices` of this module.
+    pub fn extract_msg_indices(trace: &Trace, gate_id: Uuid) -> String {
+        super::extract_msg_indices(trace, gate_id)
+    }
+}
